@@ -29,7 +29,7 @@ func main() {
 		return
 	}
 	ev.Main("C18", "exploration",
-		"one in-process perkeepd (serverinit.Load of a high-level config + InstallHandlers, real TCP listener) per configuration {memory,localdisk,diskpacked,blobpacked}x{memory,leveldb,kv,sqlite} and history; a history = every (request kind, parameter class) pair once plus seeded random picks up to the tier's request count, over <=45 blobs (0 B .. 64 KiB, one 1 MiB, a real chunked file; sha224/sha1/sha256 refs), issued through pkg/client (Upload, ReceiveBlob, StatBlobs, Fetch, EnumerateBlobs[Opts]) and raw net/http (PUT, multipart 1..40 parts, stat GET/POST with 1..1001 refs, GET/HEAD with single Range forms, enumerate with limit/after/maxwaitsec, continuation chains), each answer compared with a reference map, then a full audit; plus one boundary-size history per configuration: blobs of MaxBlobSize-1, MaxBlobSize and MaxBlobSize+1 bytes (16 MiB, streamed) through PUT with Content-Length, chunked PUT, multipart with small parts before and after the big one, client.Upload and client.ReceiveBlob, legal sizes acknowledged/stat-able/fetched byte for byte/enumerated once, the over-limit size refused and invisible afterwards; plus one bulk history per configuration: the store is loaded through 40-part multiparts to exactly 100, exactly 1000 and then >= 1100 tiny blobs and at each size listed completely through raw chains (no limit, 100, 1000, over-max, maxwaitsec=1 first), client.EnumerateBlobs (limits 1000, 1001.., 100000, After set), client.EnumerateBlobsOpts (MaxWait 1s/2.5s/with Limit, After, After+Limit, After+MaxWait), client.SimpleEnumerateBlobs, stat batches of 1000 present refs; every history also sends the out-of-domain parameter classes (limit 0/negative/non-numeric/huge, odd maxwaitsec, stat with repeated refs, a numbering gap, no camliversion, a malformed ref, no ref), one long-poll stat overlapping the upload it waits for, and repeats the complete enumerations and the stat of everything at the /bs/ root and (once a stat there reports every blob) at the /index/ root; distinct = (configuration, hash of the request log); a history counts only if it issued every mandatory class",
+		"one in-process perkeepd (serverinit.Load of a high-level config + InstallHandlers, real TCP listener) per configuration {memory,localdisk,diskpacked,blobpacked}x{memory,leveldb,kv,sqlite} and history; a history = every (request kind, parameter class) pair once plus seeded random picks up to the tier's request count, over <=45 blobs (0 B .. 64 KiB, one 1 MiB, a real chunked file; sha224/sha1/sha256 refs; blobpacked configurations: every history ends with two files whose parts name the same chunk more than once with other chunks after the repeat - a hand-written schema A A B / A B A C / Z..Z D Z E / A B A B C and a file cut by the real chunker from random bytes with long zero runs -, chunks first, then the schema blob, a new zip observed on disk, then every blob of the file fetched byte for byte by GET, HEAD, Range and client.Fetch), issued through pkg/client (Upload, ReceiveBlob, StatBlobs, Fetch, EnumerateBlobs[Opts]) and raw net/http (PUT, multipart 1..40 parts, stat GET/POST with 1..1001 refs, GET/HEAD with single Range forms, enumerate with limit/after/maxwaitsec, continuation chains), each answer compared with a reference map, then a full audit; plus one boundary-size history per configuration: blobs of MaxBlobSize-1, MaxBlobSize and MaxBlobSize+1 bytes (16 MiB, streamed) through PUT with Content-Length, chunked PUT, multipart with small parts before and after the big one, client.Upload and client.ReceiveBlob, legal sizes acknowledged/stat-able/fetched byte for byte/enumerated once, the over-limit size refused and invisible afterwards; plus one huge history (quick: memory storage; thorough: every storage, each under another index): the store is loaded to exactly 10000 (the server's largest page) and then to 10001..10400 tiny blobs and listed completely through raw chains with limit 1000, 10000, 10001, 20000, 100000, 4294967295, a seeded limit above the maximum and no limit, one page from a low cursor with a limit above the maximum, pkg/client with limits 10001/20000/100000, and at the /bs/ and /index/ roots; plus one bulk history per configuration: the store is loaded through 40-part multiparts to exactly 100, exactly 1000 and then >= 1100 tiny blobs and at each size listed completely through raw chains (no limit, 100, 1000, over-max, maxwaitsec=1 first), client.EnumerateBlobs (limits 1000, 1001.., 100000, After set), client.EnumerateBlobsOpts (MaxWait 1s/2.5s/with Limit, After, After+Limit, After+MaxWait), client.SimpleEnumerateBlobs, stat batches of 1000 present refs; every history also sends the out-of-domain parameter classes (limit 0/negative/non-numeric/huge, odd maxwaitsec, stat with repeated refs, a numbering gap, no camliversion, a malformed ref, no ref), one long-poll stat overlapping the upload it waits for, and repeats the complete enumerations and the stat of everything at the /bs/ root and (once a stat there reports every blob) at the /index/ root; distinct = (configuration, hash of the request log); a history counts only if it issued every mandatory class",
 		run)
 }
 
@@ -58,6 +58,21 @@ type job struct {
 	nreq     int
 	boundary bool // the boundary-size history of the configuration (boundary.go)
 	bulk     bool // the >= 1100-blob history of the configuration (bulk.go)
+	huge     bool // the > 10000-blob history of the configuration (huge.go)
+}
+
+// hugeConfigs: the configurations that get a huge history.  Quick: the memory storage (under the
+// index the seed's rotation pairs it with); thorough: every storage, each under another index.
+func hugeConfigs(r *ev.Run) []config {
+	rot := int(r.Seed%4+4) % 4
+	var out []config
+	for k, s := range storages {
+		if k > 0 && !r.Thorough() {
+			break
+		}
+		out = append(out, config{s, indexes[(k+rot)%4]})
+	}
+	return out
 }
 
 func run(r *ev.Run) {
@@ -78,7 +93,15 @@ func run(r *ev.Run) {
 	nreq := r.Pick(180, 330)
 	r.Assume("blob-upload.md: 'A single blob can be at most 16 MB' = constants.MaxBlobSize (16 MiB), the limit blobserver.Receive applies to direct storage access: a blob of exactly that size is legal on every upload path, one byte more is refused (any non-2xx answer, a closed connection, or an error of the client library) and must leave no trace; of a multipart request with an over-limit part only the parts before it are decided")
 	var jobs []job
-	// the boundary-size histories first: they are the longest
+	// the huge and the boundary-size histories first: they are the longest
+	r.Assume("the server's largest enumerate page (10000 blobs) only decides at which store sizes a huge history stops to enumerate; no verdict depends on it: whatever the limit, a page may be shorter than asked for as long as continueAfter says that more follows")
+	hugeCfgs := hugeConfigs(r)
+	for _, c := range hugeCfgs {
+		id := fmt.Sprintf("%s#huge;", c)
+		if r.Only(id) {
+			jobs = append(jobs, job{cfg: c, id: id, huge: true})
+		}
+	}
 	for _, c := range cfgs {
 		id := fmt.Sprintf("%s#boundary;", c)
 		if r.Only(id) {
@@ -142,10 +165,19 @@ func run(r *ev.Run) {
 		r.Require("upload_forms", forms...)
 		r.Require("bulk_configs", names...)
 		r.Require("events", bulkEvents...)
+		var hugeNames []string
+		for _, c := range hugeCfgs {
+			hugeNames = append(hugeNames, c.String())
+		}
+		r.Require("huge_configs", hugeNames...)
+		r.Require("events", hugeEvents...)
+		r.Require("huge_over_max_limits", "10001", "20000", "100000", "4294967295", "over-max")
+		r.Require("events", repeatEvents...)
+		r.Require("repeat_files", "zero-run: packed")
 		r.Require("events", "bs-root-audited", "index-root-audited")
 		r.Require("index_root_kinds", indexes...)
 	}
-	if only := os.Getenv("VERIF_ONLY"); !strings.Contains(only, "#boundary;") && !strings.Contains(only, "#bulk;") { // (a replay of one boundary history issues its own classes only)
+	if only := os.Getenv("VERIF_ONLY"); !strings.Contains(only, "#boundary;") && !strings.Contains(only, "#bulk;") && !strings.Contains(only, "#huge;") { // (a replay of one boundary history issues its own classes only)
 		r.Require("endpoints", "upload", "stat", "get", "enumerate")
 		r.Require("client_kinds", "pkg/client", "raw")
 		r.Require("client_funcs", "Upload", "ReceiveBlob", "StatBlobs", "Fetch", "EnumerateBlobs", "EnumerateBlobsOpts", "SimpleEnumerateBlobs")
@@ -288,6 +320,25 @@ func runJob(r *ev.Run, root string, j job) {
 		r.Extra("slowest_boundary_history_s", maxb(time.Since(start).Seconds()))
 		return
 	}
+	if j.huge {
+		r.Count("huge_histories", 1)
+		var missing []string
+		for _, c := range hugeClasses() {
+			if !seen[c] {
+				missing = append(missing, c)
+			}
+		}
+		if len(missing) == 0 {
+			r.Note("huge_configs", j.cfg.String())
+			if distinctKey != "" {
+				r.Distinct(distinctKey)
+			}
+		} else if !aborted && !violated {
+			r.Inconclusive(fmt.Sprintf("%s: huge history did not issue %v", j.id, missing))
+		}
+		r.Extra("slowest_huge_history_s", maxh(time.Since(start).Seconds()))
+		return
+	}
 	if j.bulk {
 		r.Count("bulk_histories", 1)
 		var missing []string
@@ -338,6 +389,17 @@ func maxb(v float64) float64 {
 	return float64(int(slowestB*10)) / 10
 }
 
+var slowestH float64
+
+func maxh(v float64) float64 {
+	slowMu.Lock()
+	defer slowMu.Unlock()
+	if v > slowestH {
+		slowestH = v
+	}
+	return float64(int(slowestH*10)) / 10
+}
+
 var slowestK float64
 
 func maxk(v float64) float64 {
@@ -355,6 +417,8 @@ func jobKind(j job) string {
 		return "boundary"
 	case j.bulk:
 		return "bulk"
+	case j.huge:
+		return "huge"
 	}
 	return "history"
 }
